@@ -278,6 +278,28 @@ pub fn minimise(sc: &Scenario, prop: &str, mon: &MonCfg, class: &str, taken: &BT
             best_v = Some(v);
         }
     }
+    // step 2b: structural shrinking of descriptors: hoist a sub-expression to the top
+    for idx in 0..cur.inputs.len() {
+        let mut improved = true;
+        let mut rounds = 0;
+        while improved && rounds < 6 {
+            improved = false;
+            rounds += 1;
+            for cand in hoist_candidates(&cur.inputs[idx].text) {
+                if cand.len() >= cur.inputs[idx].text.len() {
+                    continue;
+                }
+                let mut trial = cur.clone();
+                trial.inputs[idx].text = cand;
+                if let Some((v, _, _)) = same(&trial) {
+                    cur = trial;
+                    best_v = Some(v);
+                    improved = true;
+                    break;
+                }
+            }
+        }
+    }
     // step 3: drop inputs
     let mut idx = 0;
     while cur.inputs.len() > 1 && idx < cur.inputs.len() {
@@ -374,3 +396,47 @@ pub fn write_evidence(prop: &str, tier: &str, seed: u64, agg: &Agg, wall_s: f64,
 pub fn fault_names() -> Vec<&'static str> { crate::scenario::ALL_FAULTS.iter().map(|f: &Fault| f.name()).collect() }
 
 pub fn now() -> Instant { Instant::now() }
+
+/// Simpler descriptors of the same output type built from sub-expressions of `text`.
+pub fn hoist_candidates(text: &str) -> Vec<String> {
+    use miniscript::descriptor::ShInner;
+    use miniscript::{Descriptor, DescriptorPublicKey, Miniscript, ScriptContext};
+    use std::str::FromStr;
+    fn subs<Ctx: ScriptContext>(ms: &Miniscript<DescriptorPublicKey, Ctx>) -> Vec<String> {
+        let p = miniscript::ValidationParams::CONSENSUS;
+        let mut v: Vec<String> = ms.iter().skip(1).filter(|m| m.validate(&p).is_ok()).map(|m| m.to_string()).collect();
+        v.sort_by_key(|s| s.len());
+        v.dedup();
+        v
+    }
+    let d = match Descriptor::<DescriptorPublicKey>::from_str(text) {
+        Ok(d) => d,
+        Err(_) => return vec![],
+    };
+    let mut out = vec![];
+    match &d {
+        Descriptor::Wsh(w) => out.extend(subs(w.as_inner()).into_iter().map(|s| format!("wsh({})", s))),
+        Descriptor::Sh(sh) => match sh.as_inner() {
+            ShInner::Wsh(w) => out.extend(subs(w.as_inner()).into_iter().map(|s| format!("sh(wsh({}))", s))),
+            ShInner::Ms(m) => out.extend(subs(m).into_iter().map(|s| format!("sh({})", s))),
+            _ => {}
+        },
+        Descriptor::Tr(tr) => {
+            let ik = tr.internal_key().to_string();
+            let leaves: Vec<String> = tr.leaves().map(|l| l.miniscript().to_string()).collect();
+            if leaves.len() > 1 {
+                for l in &leaves {
+                    out.push(format!("tr({},{})", ik, l));
+                }
+            }
+            if leaves.len() == 1 {
+                for l in tr.leaves() {
+                    out.extend(subs(&**l.miniscript()).into_iter().map(|s| format!("tr({},{})", ik, s)));
+                }
+            }
+        }
+        _ => {}
+    }
+    out.retain(|c| Descriptor::<DescriptorPublicKey>::from_str(c).is_ok());
+    out
+}
